@@ -933,4 +933,37 @@ theorem tableCatalogOf_single (opts : List ColOpt) :
 example : tableCatalogOf [[], [.null], [.unique]] [2, 0] = some [(false, false), (true, false), (false, false)] := by decide
 example : tableCatalogOf [[.primaryKey], []] [1] = none := by decide
 example : tableCatalogOf [[], []] [2] = none := by decide
+/-! ### Multi-row INSERT … VALUES (after seed s8c16 was missed) -/
+
+theorem filterMap_ok_length {α β} (f : KOut α → Option β) (hf : ∀ r, (f (.ok r)).isSome = true)
+    (l : List (KOut α)) (h : l.all (fun c => c.isOk) = true) : (l.filterMap f).length = l.length := by
+  induction l with
+  | nil => rfl
+  | cons c cs ih =>
+    simp only [List.all_cons, Bool.and_eq_true] at h
+    cases c with
+    | ok r =>
+      have := hf r
+      cases hr : f (.ok r) with
+      | none => simp [hr] at this
+      | some v => simp [hr, ih h.2]
+    | err => simp [KOut.isOk] at h
+    | panic => simp [KOut.isOk] at h
+
+/-- One multi-row INSERT … VALUES statement stores all of its rows or none. -/
+theorem insertValues_all_or_nothing (decls : List ColDecl) (rows : List (List IVal)) :
+    insertValues decls rows = [] ∨ (insertValues decls rows).length = rows.length := by
+  unfold insertValues
+  simp only
+  split
+  · rename_i h
+    right
+    rw [filterMap_ok_length _ (fun r => rfl) _ h, List.length_map]
+  · left; rfl
+
+/-- The property's side never demands more than the statement failing as a whole. -/
+theorem specInsertValues_failed (decls : List ColDecl) (rows : List (List IVal))
+    (h : insertValues decls rows = []) : specInsertValues decls rows = [] := by
+  simp [specInsertValues, h]
+
 end RlModel
